@@ -40,3 +40,10 @@ package subscription
 //@ props C07 C11 C14
 //@ ensures [C14] result != nil && isfresh(result) && result.ShareName == shareOf(topic.Name) && result.TopicFilter == filterOf(topic.Name) && result.ID == id
 //@ ensures [C14] result.QoS == topic.Qos && result.NoLocal == topic.NoLocal && result.RetainAsPublished == topic.RetainAsPublished && result.RetainHandling == topic.RetainHandling
+
+// GetFullTopicName: "$share/<group>/<filter>" for a shared subscription, the filter otherwise.
+//@ spec func fullTopic(share string, filter string) string = share != "" ? concat(concat(concat("$share/", share), "/"), filter) : filter
+//@ func GetFullTopicName
+//@ props C09 C11
+//@ ensures [C09 C11] result == fullTopic(shareName, topicFilter)
+
